@@ -121,7 +121,7 @@ theorem retrF_zero (g : Grp) (eps : ℝ) (heps : 0 < eps) (X : DVec ℝ) (hX : X
 /-- the leaf values are valid stored values of their types -/
 def PointOK (lt : List Ty) (env0 : List (DVec ℝ)) : Prop :=
   env0.length = lt.length ∧ ∀ j t, lt[j]? = some t → (env0.getD j []).length = t.dim ∧
-    ∀ g, t = .G g → UnitQ g (env0.getD j []) ∧ ScaleNZ g (env0.getD j [])
+    ∀ g, t = .G g → UnitQ g (env0.getD j []) ∧ ScalePos g (env0.getD j [])
 
 /-- the leaves, with leaf `i` moved along a curve `γ` and all other leaves fixed -/
 noncomputable def curveEnv (env0 : List (DVec ℝ)) (i : Nat) (γ : ℝ → DVec ℝ) (t : ℝ) : List (DVec ℝ) := env0.set i (γ t)
@@ -136,7 +136,7 @@ theorem curveEnv_zero (env0 : List (DVec ℝ)) (i : Nat) (γ : ℝ → DVec ℝ)
   exact List.set_getElem_self hi
 
 theorem unitQ_identG (g : Grp) : UnitQ g (identG g) := by cases g <;> simp [UnitQ, identG, qt, Quat.normSq]
-theorem scaleNZ_identG (g : Grp) : ScaleNZ g (identG g) := by cases g <;> simp [ScaleNZ, identG]
+theorem scalePos_identG (g : Grp) : ScalePos g (identG g) := by cases g <;> simp [ScalePos, identG]
 
 theorem oneTan_length (lt : List Ty) (i : Nat) (τ : DVec ℝ) (j : Nat) (t : Ty) (hj : lt[j]? = some t) (ti : Ty)
     (hi : lt[i]? = some ti) (hτ : τ.length = ti.tdim) : ((oneTan lt i τ).getD j []).length = t.tdim := by
@@ -249,9 +249,9 @@ theorem regimes_of_algebraic (dJ : DJ ℝ) (eps : ℝ) (env0 : List (DVec ℝ)) 
     cases o <;> simp at hp <;> trivial
 
 /-- the chart `Log(Y · Y⁻¹)` around the value itself evaluates its `Log` at the identity element: always a proved regime -/
-theorem logRegime_chart (g : Grp) (eps : ℝ) (Y : DVec ℝ) (hu : UnitQ g Y) (hs : ScaleNZ g Y) :
+theorem logRegime_chart (g : Grp) (eps : ℝ) (Y : DVec ℝ) (hu : UnitQ g Y) (hs : ScalePos g Y) :
     LogRegime g eps (mulF g Y (invF g Y)) := by
-  rw [mulF_invF g Y hu hs]
+  rw [mulF_invF g Y hu (scalePos_nz hs)]
   cases g
   · right; simp [identG, qt, Quat.vec]
   · right; simp [identG, qt, Quat.vec]
